@@ -96,6 +96,9 @@ def cases(tier, seed):
             for pcid in (1, 3, 5):
                 yield dict(code=0x0001, dsize=70, maxlen=46, comp='all', kmax=kmax, mode=mode,
                            state=st, seed=seed, pcid=pcid)
+                if mode == 'file':
+                    yield dict(code=0x0001, dsize=70, maxlen=46, comp='seeded', mode=mode,
+                               state=st, seed=seed, pcid=pcid, rival=True)
                 if st == 'Sta6':
                     # the same while the local user keeps handing over outgoing messages
                     yield dict(code=0x0001, dsize=70, maxlen=46, comp='seeded', mode=mode,
@@ -115,7 +118,8 @@ def cases(tier, seed):
             fault = [rnd.choice(['ENOSPC', 'EIO']), rnd.randint(1, 6)]
         yield dict(code=code, dsize=dsize, maxlen=maxlen, comp='seeded', mode=mode,
                    state=rnd.choice(['Sta6', 'Sta6', 'Sta7']), seed=seed * 100003 + i, fault=fault,
-                   pcid=rnd.choice([1, 3, 5]), duplex=rnd.random() < 0.3)
+                   pcid=rnd.choice([1, 3, 5]), duplex=rnd.random() < 0.3,
+                   rival=rnd.random() < 0.3)
 
 
 def run_case(case):
@@ -227,8 +231,24 @@ def _one(case, comp, fields, cmd, data, pdvs, pcid, rnd):
         viol.append({'sig': 'C07 %s mode=%s' % (rule, case['mode']),
                      'detail': '%s\ncase %r composition %r\nloop tb %s' % (
                          detail, case, comp, rig.task.tb if rig else None)})
-    rig = Rig('c07/%s/%s' % (case['seed'], '.'.join(map(str, comp))), role=role,
-              store_in_file={CT} if file_mode else set(), get_file_cb=ae.get_file, with_fs=True)
+    pre = None
+    if case.get('rival') and file_mode and not case.get('fault'):
+        # installed before the provider thread exists: a thread is traced from its start only
+        from .. import preempt
+        pre = preempt.Preempter(None, prob=0.5, park_prob=0.3, park_max=0.05,
+                                funcs={'write_meta', 'get_file'},
+                                files=('applicationentity.py',))
+        pre.install()
+    try:
+        rig = Rig('c07/%s/%s' % (case['seed'], '.'.join(map(str, comp))), role=role,
+                  store_in_file={CT} if file_mode else set(), get_file_cb=ae.get_file,
+                  with_fs=True)
+    except BaseException:
+        if pre is not None:
+            pre.uninstall()
+        raise
+    if pre is not None:
+        pre.sim = rig.sim
     drv = c05.Driver(role, None, rig=rig)
     fsobj = rig.world.fs
     try:
@@ -242,6 +262,25 @@ def _one(case, comp, fields, cmd, data, pdvs, pcid, rnd):
         if case.get('fault'):
             fsobj.fail_errno = {'ENOSPC': 28, 'EIO': 5}[case['fault'][0]]
             fsobj.fail_write_at = fsobj.nwrites + case['fault'][1]
+        if case.get('rival') and file_mode and not case.get('fault'):
+            # another association of the same process receives file-backed instances at the same
+            # time (its provider thread calls the same get_file / write_meta), with line-level
+            # pre-emption and parking inside those functions
+            other_ts = [t for t in (rc.IMPLICIT_LE, rc.EXPLICIT_LE, rc.EXPLICIT_BE)
+                        if t != TS[pcid]]
+
+            def rival():
+                import pydicom
+                for j in range(40):
+                    cs = pydicom.Dataset()
+                    cs.AffectedSOPClassUID = '1.2.840.10008.5.1.4.1.1.4'
+                    cs.AffectedSOPInstanceUID = '1.2.826.0.1.7.999.%d' % j
+                    ctx2 = asceprovider.PContextDef(5, uid.UID('1.2.840.10008.5.1.4.1.1.4'),
+                                                    uid.UID(other_ts[j % 2]))
+                    fp2, _st = ae.get_file(ctx2, cs)
+                    fp2.close()
+                    rig.sim.sleep(0.01)
+            rig.sim.spawn(rival, name='rival', role='user')
         ref = rc.Reassembler()
         i = 0
         delivered_at = None
@@ -335,6 +374,8 @@ def _one(case, comp, fields, cmd, data, pdvs, pcid, rnd):
                 v('file-left-open-after-write-error', repr([f.path for f in opened]))
         return _ret(rig, viol, {'fault.disk_%s' % case['fault'][0]: 1} if faulted else {})
     finally:
+        if pre is not None:
+            pre.uninstall()
         rig.close()
 
 
